@@ -5,6 +5,7 @@ import (
 	"bytes"
 	"context"
 	"encoding/xml"
+	"errors"
 	"fmt"
 	"os"
 	"runtime"
@@ -109,9 +110,12 @@ type tcase struct {
 	// through the library's default negotiator (a received session learns its
 	// own address from the peer's stream header)
 	negotiated string
-	routines   [][]*call // caller goroutines
-	handler    []*call   // calls executed as handler replies in the serve goroutine
-	yields     []int     // scheduler yields before the k-th transport write
+	// closeAt >= 0: another goroutine calls Session.Close once that many
+	// transport writes have been attempted, while the callers are still at it
+	closeAt  int
+	routines [][]*call // caller goroutines
+	handler  []*call   // calls executed as handler replies in the serve goroutine
+	yields   []int     // scheduler yields before the k-th transport write
 }
 
 func (tc tcase) all() []*call {
@@ -131,7 +135,7 @@ func (tc tcase) ns() string {
 
 func (tc tcase) String() string {
 	var sb strings.Builder
-	fmt.Fprintf(&sb, "s2s=%v session=%q yields=%v", tc.s2s, tc.negotiated, tc.yields)
+	fmt.Fprintf(&sb, "s2s=%v session=%q yields=%v Close()-from-another-goroutine-after-write=%d", tc.s2s, tc.negotiated, tc.yields, tc.closeAt)
 	for g, r := range tc.routines {
 		fmt.Fprintf(&sb, "\n goroutine %d:", g)
 		for _, c := range r {
@@ -392,7 +396,10 @@ func genCall(t *rapid.T, idx int, ns, s2sFrom string, inHandler bool) *call {
 				c.expect = wire.ExpectTopLevel(n, ns, s2sFrom)
 			}
 		case "EncodeElement", "h.EncodeElement":
-			c.form = rapid.SampledFrom([]string{"struct", "marshaler"}).Draw(t, "form")
+			// ("writerto": a value with both WriteXML and TokenReader, as most of the
+			// library's own payload types are; it can be re-wrapped through its
+			// token reader)
+			c.form = rapid.SampledFrom([]string{"struct", "marshaler", "writerto"}).Draw(t, "form")
 			// v is some inner value; start is the element it has to be wrapped as
 			// (the value's own outermost tag carries no attribute in the marshaler
 			// form: whether such attributes survive is not stated; in the struct
@@ -521,6 +528,10 @@ func genCall(t *rapid.T, idx int, ns, s2sFrom string, inHandler bool) *call {
 func genCase(t *rapid.T) tcase {
 	tc := tcase{s2s: rapid.Bool().Draw(t, "s2s")}
 	tc.negotiated = rapid.SampledFrom([]string{"", "", "initiated", "received"}).Draw(t, "negotiated")
+	tc.closeAt = -1
+	if rapid.IntRange(0, 3).Draw(t, "closeConcurrently") == 0 {
+		tc.closeAt = rapid.IntRange(0, 6).Draw(t, "closeAt")
+	}
 	ns := tc.ns()
 	s2sFrom := ""
 	if tc.s2s {
@@ -539,6 +550,11 @@ func genCase(t *rapid.T) tcase {
 	}
 	nh := rapid.IntRange(0, 3).Draw(t, "nhandler")
 	for i := 0; i < nh; i++ {
+		if tc.closeAt >= 0 {
+			// (a handler whose reply comes after the Close fails and ends Serve: no
+			// handler replies in histories with a concurrent Close)
+			break
+		}
 		tc.handler = append(tc.handler, genCall(t, idx, ns, s2sFrom, true))
 		idx++
 	}
@@ -694,12 +710,31 @@ func check(t interface {
 		t.Fatalf("harness: %v", err)
 	}
 	// hold transport writes for a generated number of scheduler yields
+	closeNow := make(chan struct{})
+	var closeOnce sync.Once
 	sv.Conn.BeforeWrite = func(n int, p []byte) error {
+		if tc.closeAt >= 0 && n >= tc.closeAt {
+			closeOnce.Do(func() { close(closeNow) })
+		}
 		for i := 0; i < tc.yields[n%len(tc.yields)]; i++ {
 			runtime.Gosched()
 		}
 		return nil
 	}
+	closerDone := make(chan struct{})
+	var closeErr error
+	go func() {
+		defer close(closerDone)
+		if tc.closeAt < 0 {
+			return
+		}
+		select {
+		case <-closeNow:
+		case <-time.After(waitLong):
+			return
+		}
+		closeErr = sv.Session.Close()
+	}()
 	hidx := 0
 	var hmu sync.Mutex
 	sv.Start(xmpp.HandlerFunc(func(t xmlstream.TokenReadEncoder, start *xml.StartElement) error {
@@ -809,6 +844,12 @@ func check(t interface {
 			}
 		}
 	}
+	closeOnce.Do(func() { close(closeNow) })
+	select {
+	case <-closerDone:
+	case <-time.After(waitLong):
+		timedOut = true
+	}
 	close(stopResp)
 	cancel()
 	if timedOut {
@@ -822,6 +863,9 @@ func check(t interface {
 		return
 	}
 	<-respDone
+	if closeErr != nil {
+		fail("Close returned %v", closeErr)
+	}
 	sv.Shutdown(waitLong)
 	if p := sv.Panic(); p != "" {
 		fail("%s", p)
@@ -876,6 +920,13 @@ func check(t interface {
 		if c.err == nil && got == nil {
 			fail("call #%d returned nil but no element of it is on the wire\noutput: %s", c.idx, short(out))
 		}
+		if c.err != nil && tc.closeAt >= 0 && errors.Is(c.err, xmpp.ErrOutputStreamClosed) {
+			// the concurrent Close came first: nothing of the call may be on the wire
+			if got != nil {
+				fail("call #%d failed with %v but its complete element is on the wire", c.idx, c.err)
+			}
+			continue
+		}
 		if c.err != nil && !c.blocking {
 			// no call is given a reason to fail in this harness
 			fail("call #%d failed: %v", c.idx, c.err)
@@ -909,6 +960,9 @@ func classify(tc tcase) (bool, []string) {
 	}
 	if tc.negotiated != "" {
 		classes = append(classes, "session-negotiated-"+tc.negotiated)
+	}
+	if tc.closeAt >= 0 {
+		classes = append(classes, "close-concurrent-with-transmits")
 	}
 	if tc.s2s {
 		completion = true
